@@ -78,6 +78,11 @@ DERIVED = [
 ]
 
 
+# fields the parser fills from Element.text (None for an empty element): "" is not a value a loaded
+# database can hold there
+NOT_EMPTY = {("Limit", "value_raw")}
+
+
 def is_derived(cls: str, field: str) -> bool:
     return any(cls.endswith(c) and field == f for c, f in DERIVED)
 FREE_TEXT_FIELDS = {"oid", "long_name", "semantic", "display_name", "key_label", "struct_label", "short_label",
@@ -185,6 +190,8 @@ def worker_init() -> None:
                 pairs.append((name, key, "plain"))
                 if t["kind"] == "leaf" and t["field"] in FREE_TEXT_FIELDS and "str" in t["type"]:
                     pairs.append((name, key, "meta"))
+                if t["kind"] == "leaf" and "str" in t["type"] and "Union" not in t["type"]:
+                    pairs.append((name, key, "empty"))
     STATE["pairs"] = pairs
 
 
@@ -316,6 +323,16 @@ def type_str(f) -> str:
     return t.replace("typing.", "")
 
 
+def context_key(owner: Any) -> str:
+    """Coarse context of an element (used to pick instances of a (class, field) pair in different
+    contexts): for parameters the kind and base type of the referenced data object."""
+    dop = getattr(owner, "_dop", None)
+    if dop is None:
+        return ""
+    dct = getattr(dop, "diag_coded_type", None)
+    return type(dop).__name__ + ":" + (dct.base_data_type.name if dct is not None else "")
+
+
 def enumerate_targets(db) -> List[Dict[str, Any]]:
     out: List[Dict[str, Any]] = []
 
@@ -343,7 +360,8 @@ def enumerate_targets(db) -> List[Dict[str, Any]]:
         if is_leaf(v):
             if v is None and not any(x in t for x in ("Optional[str]", "Optional[bool]", "Optional[int]", "Optional[float]")):
                 return
-            out.append({"path": path, "cls": type(owner).__name__, "field": name, "type": t, "kind": "leaf"})
+            out.append({"path": path, "cls": type(owner).__name__, "field": name, "type": t, "kind": "leaf",
+                        "ctx": context_key(owner)})
         elif isinstance(v, list) and v and all(dataclasses.is_dataclass(x) and not hasattr(x, "odx_id") for x in v):
             out.append({"path": path, "cls": type(owner).__name__, "field": name, "type": t, "kind": "list"})
 
@@ -390,6 +408,13 @@ def new_value(target: Dict[str, Any], old: Any, vclass: str, n: int) -> Tuple[bo
     name = target["field"]
     if target["kind"] == "list":
         return True, "append-copy"
+    if vclass == "empty":
+        # the empty string: unusual but legal for free-text content
+        if target["kind"] != "leaf" or not (isinstance(old, str) or (old is None and "Optional[str]" in t)):
+            return False, None
+        if old == "" or (target["cls"], target["field"]) in NOT_EMPTY:
+            return False, None
+        return True, ""
     if vclass == "meta":
         if not (isinstance(old, str) or (old is None and "Optional[str]" in t)):
             return False, None
@@ -554,16 +579,30 @@ def gen(rs: int, index: int, tier: str) -> Dict[str, Any]:
         base, key, vclass = pairs[index]
         cands = [t for t in STATE["targets"][base] if (t["cls"], t["field"]) == key]
         tgt = cands[h64("pick", rs) % len(cands)]
+        # further instances of the same pair in other contexts, tried in turn if the perturbed database does
+        # not survive refresh() (e.g. an empty default is only valid for a string-typed parameter)
+        seen_ctx = {tgt.get("ctx", "")}
+        alts = []
+        for t in cands:
+            if t.get("ctx", "") not in seen_ctx:
+                seen_ctx.add(t.get("ctx", ""))
+                alts.append(t["path"])
+        alts = alts[:8]
     else:
         base = weighted(r, ["somersault", "somersault_modified", "somersault_renamed", "zoo0", "zoo1", "zoo2", "zoo3"],
                         [5, 2, 2, 2, 2, 2, 2])
-        vclass = weighted(r, ["plain", "meta", "none"], [6, 3, 1])
+        vclass = weighted(r, ["plain", "meta", "empty", "none"], [6, 3, 1, 1])
         tgts = STATE["targets"][base]
         tgt = r.choice(tgts) if vclass != "none" and tgts else None
+        alts = []
+        if tgt is not None:
+            same = [t for t in tgts if (t["cls"], t["field"]) == (tgt["cls"], tgt["field"]) and t is not tgt]
+            r.shuffle(same)
+            alts = [t["path"] for t in same[:4]]
     if tgt is not None and vclass != "none":
         db = None
         pert = {"path": tgt["path"], "cls": tgt["cls"], "field": tgt["field"], "type": tgt["type"],
-                "kind": tgt["kind"], "vclass": vclass, "n": r.randint(0, 3)}
+                "kind": tgt["kind"], "vclass": vclass, "n": r.randint(0, 3), "alts": alts}
     jump = r.choice(JUMPS)
     e1, e2 = r.choice(ENTRIES), r.choice(ENTRIES)
     # history inside the run: in some runs another database is written first by the same process
@@ -635,6 +674,46 @@ def load_via(entry: str, pdx: str, workdir: str, order_seed: int):
         random.Random(order_seed).shuffle(names)
         return odxtools.load_files(*[os.path.join(d, n) for n in names])
     raise ValueError(entry)
+
+
+def aux_snapshot(db) -> Dict[str, str]:
+    import hashlib
+    out = {}
+    for k, f in db.auxiliary_files.items():
+        pos = f.tell() if hasattr(f, "tell") else None
+        try:
+            data = f.read()
+        finally:
+            if pos is not None:
+                f.seek(pos)
+        out[os.path.basename(str(k))] = hashlib.sha256(data).hexdigest()[:16]
+    return out
+
+
+def archive_aux(pdx) -> Dict[str, str]:
+    import hashlib
+    with zipfile.ZipFile(io.BytesIO(pdx) if isinstance(pdx, bytes) else pdx) as z:
+        return {os.path.basename(n): hashlib.sha256(z.read(n)).hexdigest()[:16] for n in z.namelist()
+                if not os.path.splitext(n)[1].lower().startswith(".odx") and os.path.basename(n).lower() != "index.xml"}
+
+
+def base_archive(name: str):
+    if name in STATE["bases"]:
+        return STATE["bases"][name]
+    return STATE.get("zoo_pdx", {}).get(name)
+
+
+def check_aux(db, pdx, stage: str, entry: str) -> Optional[Dict[str, Any]]:
+    got, want = aux_snapshot(db), archive_aux(pdx)
+    if got != want:
+        extra = sorted(set(got) - set(want))
+        missing = sorted(set(want) - set(got))
+        changed = sorted(k for k in set(got) & set(want) if got[k] != want[k])
+        what = "extra" if extra else ("missing" if missing else "content")
+        return {"oracle": "C11.O6-auxiliary-files", "sig": {"what": what},
+                "detail": {"stage": stage, "entry": entry, "extra": extra[:5], "missing": missing[:5], "changed": changed[:5],
+                           "n_loaded": len(got), "n_in_archive": len(want)}}
+    return None
 
 
 def odx_members(pdx: str) -> Dict[str, bytes]:
@@ -721,6 +800,11 @@ def execute(trace: Dict[str, Any]) -> Dict[str, Any]:
                     faults["other_database_written_before"] = 1
                 except Exception as e:  # noqa: BLE001 - judged by the runs that use it as base
                     log.ev("sim", "prelude-failed", exc_sig(e))
+            if db0 is not None and base_archive(trace["base"]) is not None:
+                # the auxiliary files of db0 are those of its archive, whatever else this process loaded or wrote
+                v6 = check_aux(db0, base_archive(trace["base"]), "base load", "add_pdx_file")
+                if v6:
+                    violations.append(v6)
             old = new = None
             if pert and db0 is not None:
                 sets["class_field_exercised"].add(h64(cls, field))
@@ -732,12 +816,25 @@ def execute(trace: Dict[str, Any]) -> Dict[str, Any]:
                     pert = None
                 else:
                     pert = {**pert, "value": val}
-                    old, new = apply_perturbation(db0, pert)
-                    try:
-                        db0.refresh()
-                    except Exception as e:  # noqa: BLE001
-                        outcome = "discarded"
-                        log.ev("sim", "discarded", exc_sig(e))
+                    paths = [pert["path"]] + [a for a in pert.get("alts", [])]
+                    for pi, pth in enumerate(paths):
+                        if pi > 0:
+                            db0 = load_base(trace["base"])
+                            owner, last = get_path(db0, pth)
+                            cur = step_into(owner, last)
+                            ok, val = new_value({**pert, "path": pth}, cur, vclass, pert.get("n", 0))
+                            if not ok:
+                                continue
+                            pert = {**pert, "path": pth, "value": val}
+                            counters["retried_other_instance"] = counters.get("retried_other_instance", 0) + 1
+                        old, new = apply_perturbation(db0, pert)
+                        try:
+                            db0.refresh()
+                            outcome = "ok"
+                            break
+                        except Exception as e:  # noqa: BLE001
+                            outcome = "discarded"
+                            log.ev("sim", "discarded", exc_sig(e))
             if outcome in ("ok",):
                 if pert:
                     sets["class_field_accepted"].add(h64(cls, field))
@@ -766,13 +863,17 @@ def execute(trace: Dict[str, Any]) -> Dict[str, Any]:
                         db1 = load_via(trace["entries"][0], p1r, workdir, trace["orders"][0])
                     except Exception as e:  # noqa: BLE001
                         sig = exc_sig(e)
-                        if pert and (vclass == "plain" or pert["kind"] == "list"):
+                        if pert and (vclass in ("plain", "empty") or pert["kind"] == "list"):
                             outcome = "rejected"
                             log.ev("sim", "rejected", sig)
                         else:
                             outcome = "reload-failed"
                             violations.append({"oracle": "C11.reload", "sig": {"cls": cls, "field": field, "vclass": vclass, **sig},
                                                "detail": {"msg": str(e)[:200], "pert": pert, "entry": trace["entries"][0]}})
+                if outcome == "ok":
+                    v6 = check_aux(db1, p1r, "first reload", trace["entries"][0])
+                    if v6:
+                        violations.append(v6)
                 if outcome == "ok":
                     d = compare_dbs(db0, db1)
                     if d:
@@ -842,6 +943,9 @@ def execute(trace: Dict[str, Any]) -> Dict[str, Any]:
                         violations.append({"oracle": "C11.reload", "sig": {"cls": cls, "field": field, "vclass": vclass, **sig},
                                            "detail": {"msg": str(e)[:200], "pert": pert, "entry": trace["entries"][1], "stage": "second"}})
                     if db2 is not None:
+                        v6 = check_aux(db2, p2r, "second reload", trace["entries"][1])
+                        if v6:
+                            violations.append(v6)
                         d = compare_dbs(db1, db2)
                         if d:
                             path, what, va, vb = d
